@@ -44,6 +44,18 @@ type atom struct {
 	// object family: what the unit's generated code does on the unchanged tree
 	// when that is a listed finding ("" otherwise)
 	known string
+	// identifier hygiene family: the group (role and table, e.g.
+	// "param-name=keyword@method") and the identifier under test; a failure
+	// common to the whole group is attributed to the group, any other one to
+	// "<group>:<name>"
+	hgroup, hname string
+	pkgName       string // "" = main; otherwise the atom is generated and type-checked alone only
+	aloneOnly     bool   // this tier gives the atom the alone verdict only (not assembled, not driven)
+	rejected      bool   // the IDL parser refused the atom: not a program of the universe
+	// atoms with different pack keys are never assembled into one package (the
+	// two spellings of one name, or one name as structure and as constant, would
+	// declare the same Go identifier twice: an artefact of packing, not a verdict)
+	pack string
 }
 
 var scalars = []string{"bool", "int8", "uint8", "int16", "uint16", "int32", "uint32", "int64", "uint64", "float32", "float64", "str", "any"}
@@ -232,7 +244,7 @@ func methodEcho(name, t string) action {
 }
 
 // buildAtoms returns the atoms of a tier.
-func buildAtoms(tier string) []*atom {
+func buildAtoms(tier string, hyg *hygieneTables) []*atom {
 	depth := 1
 	if tier == "thorough" {
 		depth = 2
@@ -270,44 +282,19 @@ func buildAtoms(tier string) []*atom {
 	ar("signal:2-params", action{kind: "signal", name: "g2", params: []param{{pA, "int32"}, {pB, "str"}}})
 	ar("signal:3-params", action{kind: "signal", name: "g3", params: []param{{pA, "str"}, {pB, "int32"}, {pC, "bool"}}})
 	ar("property:2-params", action{kind: "property", name: "q2", params: []param{{pA, "int32"}, {pB, "str"}}})
-	// ---- identifier hygiene: parameter names
+	// ---- identifier hygiene: names x roles (hygiene.go)
 	hy := func(cls, tag string, acts ...action) *atom {
 		a := &atom{id: id("h"), class: cls, hygiene: true, actions: acts}
+		if i := strings.Index(cls, ":"); i >= 0 {
+			a.hgroup, a.hname = cls[:i], cls[i+1:]
+		}
 		as = append(as, a)
 		_ = tag
 		return a
 	}
-	pn := func(cls string, names []string) {
-		for _, nm := range names {
-			// one atom per action kind: the three code paths clean names differently
-			k := id("x")
-			hy(cls+"@method:"+nm, nm, action{kind: "method", name: "pm" + k, params: []param{{nm, "int32"}, {"omega", "str"}}, ret: "int32"})
-			hy(cls+"@signal:"+nm, nm, action{kind: "signal", name: "ps" + k, params: []param{{nm, "int32"}}})
-			hy(cls+"@property:"+nm, nm, action{kind: "property", name: "pp" + k, params: []param{{nm, "int32"}}})
-		}
-	}
-	pn("param-name=keyword", goKeywords)
-	pn("param-name=predeclared", predeclared)
-	pn("param-name=generated-local", generatedLocals)
-	pn("param-name=package", packageNames)
-	pn("param-name=underscore", []string{"_", "_a", "a_b", "a_", "__"})
-	pn("param-name=case", []string{"A", "Ab", "aB"})
+	as = append(as, hygieneAtoms(tier, hyg, id)...)
 	// two parameters whose cleaned names collide
 	hy("param-names=collide-after-cleaning", "", action{kind: "method", name: "pcol", params: []param{{"type", "int32"}, {"type_0", "int32"}}, ret: "int32"})
-	// ---- action names
-	for _, nm := range reservedNames {
-		hy("method-name=reserved:"+nm, nm, action{kind: "method", name: nm, params: []param{{pA, "int32"}}, ret: "int32"})
-	}
-	for _, nm := range goKeywords {
-		hy("method-name=keyword", nm, action{kind: "method", name: nm, params: []param{{pA, "int32"}}, ret: "int32"})
-	}
-	for _, nm := range []string{"_m", "m_", "a_b", "A", "Ab", "x1", "_", "mé"} {
-		hy("method-name=shape:"+nm, nm, action{kind: "method", name: nm, params: []param{{pA, "int32"}}, ret: "int32"})
-	}
-	for _, nm := range reservedNames[:12] {
-		hy("signal-name=reserved:"+nm, nm, action{kind: "signal", name: nm, params: []param{{pA, "int32"}}})
-		hy("property-name=reserved:"+nm, nm, action{kind: "property", name: nm, params: []param{{pA, "int32"}}})
-	}
 	// ---- struct hygiene
 	for _, d := range []string{"KwFields", "CaseFields", "UsFields", "lower", "With_us", "List<int>"} {
 		k := id("d")
